@@ -17,7 +17,7 @@ RULE = ("(1) every runtime block of ET/DT/ES (both Modbus framings; ES blocks of
         "style / field index, outcome class) tuples")
 ASSUMPTIONS = ["DT.read_settings_data() is outside the property's wording (it names ET and ES for the bulk settings read)",
                "a key may map to None; the key set must contain every id of the covered sensors/settings"]
-MUST = ["repeated_polls_all_ids", "time_field_ranges_checked", "settings_none_pattern_checked", "undecodable_value_read_twice", "stateful_decode_compared", "settings_registers_refused", "single_reads_after_capability_change", "blocks_decoded", "none_values_seen", "valueerror_paths_seen", "field_sweeps", "end_to_end_runtime",
+MUST = ["single_setting_reads_vs_own_registers", "repeated_polls_all_ids", "time_field_ranges_checked", "settings_none_pattern_checked", "undecodable_value_read_twice", "stateful_decode_compared", "settings_registers_refused", "single_reads_after_capability_change", "blocks_decoded", "none_values_seen", "valueerror_paths_seen", "field_sweeps", "end_to_end_runtime",
         "end_to_end_settings", "single_reads", "es_short_blocks"]
 EXHAUSTIVE = {"quick": False, "thorough": True}
 
@@ -215,6 +215,7 @@ def e2e_part(spec, part):
             sim.zero_count_ok = True        # firmware that answers a read of zero registers with an empty payload instead of refusing it
 
         async def flow(loop):
+            import copy
             inv = models.family_cls(g, fam)("inv0", port, 0, 1, 0)
             await inv.read_device_info()
             # (a poll in which a refused block is discovered may fail with RequestRejectedException: C15; the following ones must
@@ -269,12 +270,38 @@ def e2e_part(spec, part):
             ids = [s.id_ for s in inv.settings()]
             rnd.shuffle(ids)
             singles = []
+            by_id = {s.id_: s for s in inv.settings()}
+            if fam == "ES":     # the eco-mode groups of the ES family go through a path of their own (AA55 register read / Modbus read)
+                ids = [x for x in ids if x.startswith("eco_mode")][:5] + ids
+            single_settings = []
             for sid in ids[:12]:
+                # what the setting's own registers decode to on their own, right before the call
+                st_ = by_id[sid]
+                want = None
+                if getattr(st_, "size_", 0) > 0 and fam in ("ET", "ES"):
+                    if fam == "ET" or st_.offset >= 1000:
+                        nreg = (st_.size_ + 1) // 2
+                        own = None if sim.is_refused(st_.offset, nreg) else sim.get_bytes(st_.offset, nreg)
+                        if own is not None and type(st_).__name__ != "ByteL":
+                            own = own[:st_.size_]
+                    else:
+                        own = bytes(sim.settings[st_.offset:st_.offset + st_.size_])
+                        own = own if len(own) == st_.size_ else None
+                    if own is not None:
+                        try:
+                            want = "value" if copy.copy(st_).read_value(g.protocol.ProtocolResponse(own, None)) is not None else None
+                        except ValueError:
+                            want = "undecodable"
+                        except Exception:       # noqa  (the field sweeps report those)
+                            want = None
                 try:
-                    await inv.read_setting(sid)
+                    v_ = await inv.read_setting(sid)
                     singles.append((sid, "ok"))
-                except ValueError:
+                    single_settings.append((sid, want, "ok", str(v_)[:50]))
+                except ValueError as e_:
                     singles.append((sid, "ValueError"))
+                    single_settings.append((sid, want, "ValueError", str(e_)[:50]))
+            out["single_settings"] = single_settings
             sids = [s.id_ for s in inv.sensors()]
             rnd.shuffle(sids)
             derived = [s.id_ for s in inv.sensors() if getattr(s, "size_", 1) == 0]      # calculated values and labels (served by a bulk read)
@@ -325,6 +352,15 @@ def e2e_part(spec, part):
             elif what == "value" and got is None:
                 part.violate("C11/e2e/decodable-setting-reported-none",
                              f"{fam}: the registers of setting {sid!r} decode to a value, yet read_settings_data() reports None", case)
+        for sid, want, how, txt in out.get("single_settings", []):
+            if want:
+                part.count("single_setting_reads_vs_own_registers")
+            if want == "undecodable" and how == "ok":
+                part.violate("C11/e2e/undecodable-setting-read-as-value",
+                             f"{fam}: the registers of setting {sid!r} cannot be interpreted, yet read_setting() returned {txt!r} instead of raising ValueError", case)
+            elif want == "value" and how == "ValueError":
+                part.violate("C11/e2e/decodable-setting-raises-valueerror",
+                             f"{fam}: the registers of setting {sid!r} decode to a value and the inverter serves them, yet read_setting() raised ValueError({txt!r})", case)
         if "st" in out:
             miss = out["st_ids"] - set(out["st"])
             if miss:
